@@ -1053,6 +1053,27 @@ func (a *analysis) oracleC13() verdict {
 			return a.fv("text-altered", "text line %q in frame %d was never written (altered bytes?)", t.line, t.frame)
 		}
 	}
+	// text travels with a frame: an output write that carries text but none of the
+	// bars which the frames before and after it both show is text emitted outside a frame
+	for fi := 1; fi+1 < len(a.frames); fi++ {
+		f := a.frames[fi]
+		if len(f.Text) == 0 || len(f.Groups) != 0 {
+			continue
+		}
+		for _, g := range a.frames[fi-1].Groups {
+			if a.frames[fi+1].find(g.ID) != nil && !(g.C || g.A) {
+				return a.fv("text-outside-frame", "output write %d carries text %q but no bar rows, although bar %d is displayed before and after it: the text was not emitted above the bar rows of a frame", fi, f.Text[0], g.ID)
+			}
+		}
+	}
+	// "above the bar rows of the frame that carries them and never inside a bar
+	// row": replay the stream on the terminal emulator; the persisted region must
+	// consist of exactly the written text (and popped rows), the frame rows below it
+	if !sc.Delay {
+		if r := a.tapeCheck(); r.msg != "" {
+			return a.fv("tape:"+a.tapeKey(r.key), "text and bar rows do not end up where they belong on the terminal: %s", r.msg)
+		}
+	}
 	// order: real-time order across writers (and program order per writer)
 	sort.Slice(ws, func(i, j int) bool { return ws[i].pos < ws[j].pos })
 	for i := 0; i < len(ws); i++ {
